@@ -108,6 +108,7 @@ pub fn run_scenario(sc: &Value, out: &mut Vec<u8>, cap: &mut Capture, cold_cache
     let kind = if !running { "halt" } else if mode == "block" || cfg!(feature = "jit") { "block" } else { "instr" };
     if cold_cache { core.cache = CodeCache::new(); }
     let c0 = clocks();
+    unsafe { crate::mem::verif::CPU[0] = u64::MAX; }
     rec_start();
     let res = std::panic::catch_unwind(std::panic::AssertUnwindSafe(|| {
       if running && mode == "block" { core.run_code_block(); } else { core.update(); }
@@ -121,8 +122,25 @@ pub fn run_scenario(sc: &Value, out: &mut Vec<u8>, cap: &mut Capture, cold_cache
       break;
     }
     let wr: Vec<Value> = writes_only(&log).iter().map(|w| json!([w.0, w.1])).collect();
+    let cpu = unsafe { if crate::mem::verif::CPU[0] == u64::MAX { 0 } else { crate::mem::verif::CPU[0] } };
     writeln!(out, "{}", json!({"ev": "step", "k": kind, "o": project(&mut core), "wr": wr, "out": serial,
-      "clk": [c1[0] - c0[0], c1[1] - c0[1], c1[2] - c0[2]]})).unwrap();
+      "clk": [c1[0] - c0[0], c1[1] - c0[1], c1[2] - c0[2]], "cpu": cpu})).unwrap();
+  }
+  // stepping to the next frame (C09): elapsed device clocks, largest single step, LCD position
+  let frames = sc["frames"].as_u64().unwrap_or(0);
+  for _ in 0..frames {
+    if !ok { break; }
+    let c0 = clocks();
+    let q0 = lcd_q(&core);
+    let pend0 = core.registers.cycles;
+    unsafe { crate::mem::verif::CPU[1] = 0; }
+    let res = std::panic::catch_unwind(std::panic::AssertUnwindSafe(|| { core.run_frame(); }));
+    let c1 = clocks();
+    let _ = cap.take();
+    if res.is_err() { writeln!(out, "{}", json!({"ev": "panic", "k": "frame", "step": 0})).unwrap(); ok = false; break; }
+    let maxstep = unsafe { crate::mem::verif::CPU[1] };
+    writeln!(out, "{}", json!({"ev": "frame", "o": project(&mut core), "q0": q0, "q1": lcd_q(&core), "pend0": pend0,
+      "clk": [c1[0] - c0[0], c1[1] - c0[1], c1[2] - c0[2]], "maxstep": maxstep, "mode": core.memory.io.video.get_current_mode()})).unwrap();
   }
   ok
 }
@@ -132,10 +150,18 @@ pub fn run(args: &[String]) {
   let outp = arg_value(args, "--out").expect("--out");
   let cold = args.iter().any(|a| a == "--cold-cache");
   silence_panics();
-  let mut cap = Capture::start(&format!("{}.stdout", outp));
-  let mut out: Vec<u8> = Vec::new();
-  let mut panics = 0;
-  for sc in &scen { if !run_scenario(sc, &mut out, &mut cap, cold) { panics += 1; } }
-  std::fs::write(&outp, &out).unwrap();
-  eprintln!("{}", json!({"kind": "summary", "scenarios": scen.len(), "panics": panics}));
+  let capfile = format!("{}.stdout", outp);
+  // every scenario runs in a forked worker: a panic inside the extern "sysv64" bus helpers or a
+  // fault in translated code kills the worker, not the recorder
+  let res = run_isolated(scen.len(), |i, out| {
+    let mut cap = Capture::start(&capfile);
+    run_scenario(&scen[i], out, &mut cap, cold);
+  });
+  let mut f = std::io::BufWriter::new(std::fs::File::create(&outp).unwrap());
+  for l in &res.lines { writeln!(f, "{}", l).unwrap(); }
+  for (i, st) in &res.crashes {
+    writeln!(f, "{}", json!({"ev": "crash", "id": scen[*i]["id"], "status": describe_status(*st)})).unwrap();
+  }
+  let panics = res.lines.iter().filter(|l| l.contains("\"ev\":\"panic\"")).count();
+  eprintln!("{}", json!({"kind": "summary", "scenarios": scen.len(), "panics": panics, "crashes": res.crashes.len()}));
 }
